@@ -135,6 +135,22 @@ def run(pid, tier):
         nd = chk_dsl.doc_validate(chk, binary, sc, [{"id": k, "text": v, "src": ["none", 0, 0]} for k, v in list(texts.items()) + list(aux.items()) if len(v) < 30000],
                                   "token-mutated documents and byte-mutated fixtures")
 
+        # ---- e. fga.mod: every path string of the ModFile.tla universe (all strings <= 4 over the path alphabet, each also with .fga
+        # appended) and its manifests in all YAML styles go through TransformModFile under recover()
+        import chk_modfile
+        base = {"maxlen": 4 if tier == "quick" else 5, "maxentries": 2 if tier == "quick" else 3}
+        mrecs = []
+        for mode, inv in (("Paths", "PathsOK"), ("Manifest", "OneErrorPerOffender"), ("Odd", "OddOK"), ("OddSchema", "OddSchemaOK")):
+            mrecs += run_tlc("ModFile", chk_modfile.CFG % dict(base, mode=mode, inv=inv), sc, cache=True, timeout=3000).records
+        mi, mo = sc.path("c08e.in.ndjson"), sc.path("c08e.out.ndjson")
+        write_ndjson(mi, mrecs)
+        run_harness(binary, ["modfile-replay", "-in", mi, "-out", mo])
+        for r, o in zip(mrecs, read_ndjson(mo)):
+            chk.add("modfile_inputs")
+            if o["result"] == "panic":
+                chk.violation("TransformModFile panics on a manifest of the ModFile.tla universe: %s" % (o.get("msg") or "")[:160], {"entry": "TransformModFile", "text": r["text"], "result": o, "model_derived": True})
+        log("e: %d fga.mod manifests of the ModFile.tla universe through TransformModFile" % len(mrecs))
+
         # ---- b. degenerate protobuf models
         deg = run_tlc("Degenerate", DEG_CFG % {"holes": 1 if tier == "quick" else 2}, sc, cache=True, timeout=3000)
         drecs = [r for r in deg.records if r["rec"] == "degenerate"]
